@@ -7,36 +7,72 @@ package vchan
 
 import (
 	"reflect"
+	"sync"
 
 	"github.com/mandykoh/prism/zverif/vrt"
 )
 
-func id(ch interface{}) (uintptr, int) {
+// modelled: channels created by make() in instrumented code (registered by
+// Make). Any other channel - a timer's, a context's, one handed in by the
+// caller - belongs to code the scheduler does not control: operations on it
+// are the real ones (the exploration simply waits for them).
+var (
+	modelledMu sync.Mutex
+	modelled   = map[uintptr]bool{}
+	keep       []interface{} // registered channels stay reachable: their addresses are identities
+)
+
+// Make is make(chan T, n).
+func Make[T any](n int) chan T {
+	ch := make(chan T, n)
+	modelledMu.Lock()
+	modelled[reflect.ValueOf(ch).Pointer()] = true
+	keep = append(keep, ch)
+	modelledMu.Unlock()
+	return ch
+}
+
+func id(ch interface{}) (ptr uintptr, capacity int, model bool) {
 	v := reflect.ValueOf(ch)
-	if !v.IsValid() || v.Kind() != reflect.Chan || v.IsNil() {
-		return 0, 0
+	if !v.IsValid() || v.Kind() != reflect.Chan {
+		return 0, 0, false
 	}
-	return v.Pointer(), v.Cap()
+	if v.IsNil() {
+		return 0, 0, true // blocks for ever: the model reports that as a deadlock
+	}
+	modelledMu.Lock()
+	ok := modelled[v.Pointer()]
+	modelledMu.Unlock()
+	return v.Pointer(), v.Cap(), ok
+}
+
+func realSend(ch interface{}, v interface{}) {
+	cv := reflect.ValueOf(ch)
+	var x reflect.Value
+	if v == nil {
+		x = reflect.Zero(cv.Type().Elem())
+	} else {
+		x = reflect.ValueOf(v)
+		if x.Type() != cv.Type().Elem() {
+			x = x.Convert(cv.Type().Elem())
+		}
+	}
+	cv.Send(x)
 }
 
 // Send is ch <- v. ch is any channel type that can be sent on; v anything
 // assignable to its element type (the compiler checked the original statement).
 func Send(ch interface{}, v interface{}) {
 	if !vrt.Active() {
-		cv := reflect.ValueOf(ch)
-		var x reflect.Value
-		if v == nil {
-			x = reflect.Zero(cv.Type().Elem())
-		} else {
-			x = reflect.ValueOf(v)
-			if x.Type() != cv.Type().Elem() {
-				x = x.Convert(cv.Type().Elem())
-			}
-		}
-		cv.Send(x)
+		realSend(ch, v)
 		return
 	}
-	p, c := id(ch)
+	p, c, ok := id(ch)
+	if !ok {
+		vrt.SyncPoint("send on a channel from outside the instrumented code")
+		realSend(ch, v)
+		return
+	}
 	vrt.ChanSend(p, c, v)
 }
 
@@ -46,7 +82,12 @@ func Recv2[T any](ch <-chan T) (T, bool) {
 		v, ok := <-ch
 		return v, ok
 	}
-	p, c := id(ch)
+	p, c, model := id(ch)
+	if !model {
+		vrt.SyncPoint("receive on a channel from outside the instrumented code")
+		v, ok := <-ch
+		return v, ok
+	}
 	x, ok := vrt.ChanRecv(p, c)
 	var zero T
 	if !ok || x == nil {
@@ -75,7 +116,11 @@ func Close(ch interface{}) {
 		reflect.ValueOf(ch).Close()
 		return
 	}
-	p, c := id(ch)
+	p, c, ok := id(ch)
+	if !ok {
+		reflect.ValueOf(ch).Close()
+		return
+	}
 	vrt.ChanClose(p, c)
 }
 
@@ -84,6 +129,9 @@ func Len(ch interface{}) int {
 	if !vrt.Active() {
 		return reflect.ValueOf(ch).Len()
 	}
-	p, c := id(ch)
+	p, c, ok := id(ch)
+	if !ok {
+		return reflect.ValueOf(ch).Len()
+	}
 	return vrt.ChanLen(p, c)
 }
